@@ -87,6 +87,24 @@ theorem bindValue_complete (p : GPat) (c : Partial) (A : Assign) (vp : VPat) (v 
         · cases he; exact hA
   · exact bind_complete c A nm _ h hA
 
+/-- with repair C06-F2 a named pattern carrying a checker is recorded in `value_bindings` under its
+object id, which the declarative assignment does not constrain; completeness is stated for patterns
+whose named variables carry no checker (checkers of unnamed patterns are unrestricted) -/
+def NamedUnchecked (p : GPat) (vp : VPat) : Prop := (p.vname vp).isSome = true → vp.check = none
+
+theorem bindValue2_complete (fix2 : Bool) (p : GPat) (c : Partial) (A : Assign) (vp : VPat)
+    (v : Option ValueId) (h : SLe c A) (hA : A.boundTo p vp v) (hnc : NamedUnchecked p vp) :
+    ∃ c', bindValue2 fix2 p [c] vp v = (true, [c']) ∧ SLe c' A ∧ c'.nb = c.nb := by
+  obtain ⟨c1, e1, s1, n1⟩ := bindValue_complete p c A vp v h hA
+  unfold bindValue2
+  dsimp only
+  have : (fix2 && (bindValue p [c] vp v).1 && (p.vname vp).isSome && vp.check.isSome) = false := by
+    cases hn : (p.vname vp).isSome with
+    | false => simp
+    | true => simp [hnc hn]
+  simp only [this, Bool.false_eq_true, if_false]
+  exact ⟨c1, e1, s1, n1⟩
+
 theorem attrsLoop_complete (n : GNode) (A : Assign) : ∀ (l : List (String × APat)) (c : Partial),
     SLe c A →
     (∀ name ap, (name, ap) ∈ l → attrOk n name ap ∧
@@ -136,13 +154,18 @@ theorem nodeMatches_complete (A : Assign) (P : NPat) (N : GNode) (c : Partial) (
       exact hx (a.name, ap) hap (by simp)
     simp [hao', hno]
 
+/-- no *named* value pattern among the inputs of the node patterns carries a checker -/
+def NamedVarsUnchecked (p : GPat) : Prop :=
+  ∀ P ∈ p.nodes, ∀ vp, some vp ∈ P.inputs → NamedUnchecked p vp
+
 /-- the recursive node matcher succeeds on every node pattern below `f` that `A` satisfies -/
 def NodeC (E : Env) (A : Assign) (rec : NPId → NodeId → Stack → R) (f : Nat) : Prop :=
   ∀ np n c, np < f → SatN E A np n → SLe c A → ∃ c', rec np n [c] = (true, [c']) ∧ SLe c' A
 
 theorem matchValue_complete (E : Env) (A : Assign) (rec : NPId → NodeId → Stack → R) (f : Nat)
     (hrec : NodeC E A rec f) (vp : VPat) (hno : vp.noOr = true) (v : Option ValueId) (c : Partial)
-    (hs : SatV E A vp v) (h : SLe c A) (hq : ∀ q idx, vp = .out q idx → q < f) :
+    (hs : SatV E A vp v) (h : SLe c A) (hq : ∀ q idx, vp = .out q idx → q < f)
+    (hnc : E.fixF2 = false ∨ NamedUnchecked E.p vp) :
     ∃ c', matchValue E rec vp v [c] = (true, [c']) ∧ SLe c' A := by
   cases hs with
   | any v =>
@@ -162,7 +185,14 @@ theorem matchValue_complete (E : Env) (A : Assign) (rec : NPId → NodeId → St
         | false => simp [hf]
         | true => simp [VPat.crossGraphOk, h2 x rfl hf]
     simp only [hcg, Bool.false_eq_true, if_false]
-    obtain ⟨c1, e1, s1, _⟩ := bindValue_complete E.p c A _ v h hb
+    obtain ⟨c1, e1, s1, _⟩ : ∃ c', bindValue2 E.fixF2 E.p [c] (.var id name isVar canNone check) v = (true, [c']) ∧
+        SLe c' A ∧ c'.nb = c.nb := by
+      rcases hnc with hf | hnc
+      · obtain ⟨c1, e1, s1, n1⟩ := bindValue_complete E.p c A _ v h hb
+        refine ⟨c1, ?_, s1, n1⟩
+        unfold bindValue2
+        simp [hf, e1]
+      · exact bindValue2_complete E.fixF2 E.p c A _ v h hb hnc
     simp only [e1, Bool.not_true, Bool.false_eq_true, if_false]
     have : (v.isNone && !canNone) = false := by
       cases v with
@@ -197,7 +227,8 @@ theorem matchInputs_complete (E : Env) (A : Assign) (rec : NPId → NodeId → S
     (hrec : NodeC E A rec f) :
     ∀ (pairs : List (Option ValueId × Option VPat)) (c : Partial), SLe c A →
       (∀ v, (v, none) ∈ pairs → v = none) →
-      (∀ v vp, (v, some vp) ∈ pairs → vp.noOr = true ∧ SatV E A vp v ∧ ∀ q idx, vp = .out q idx → q < f) →
+      (∀ v vp, (v, some vp) ∈ pairs → vp.noOr = true ∧ SatV E A vp v ∧ (∀ q idx, vp = .out q idx → q < f) ∧
+        (E.fixF2 = false ∨ NamedUnchecked E.p vp)) →
       ∃ c', matchInputs (matchValue E rec) pairs [c] = (true, [c']) ∧ SLe c' A := by
   intro pairs
   induction pairs with
@@ -215,8 +246,8 @@ theorem matchInputs_complete (E : Env) (A : Assign) (rec : NPId → NodeId → S
         (fun v vp hm => hsome v vp (List.mem_cons_of_mem _ hm))
     | some vp =>
       unfold matchInputs
-      obtain ⟨hno, hs, hq⟩ := hsome v vp (List.mem_cons_self ..)
-      obtain ⟨c1, e1, s1⟩ := matchValue_complete E A rec f hrec vp hno v c hs h hq
+      obtain ⟨hno, hs, hq, hnc⟩ := hsome v vp (List.mem_cons_self ..)
+      obtain ⟨c1, e1, s1⟩ := matchValue_complete E A rec f hrec vp hno v c hs h hq hnc
       simp only [e1, Bool.not_true, Bool.false_eq_true, if_false]
       exact ih c1 s1 (fun v hm => hnone v (List.mem_cons_of_mem _ hm))
         (fun v vp hm => hsome v vp (List.mem_cons_of_mem _ hm))
@@ -260,7 +291,8 @@ theorem zipPad_mem : ∀ (vs : List (Option ValueId)) (ps : List (Option VPat)) 
         exact ⟨i + 1, by simpa using h1, by simpa using h2⟩
 
 theorem nodeStep_complete (E : Env) (A : Assign) (rec : NPId → NodeId → Stack → R) (f : Nat)
-    (hrec : NodeC E A rec f) (hno : E.p.noOr = true) (htopo : E.p.topo) :
+    (hrec : NodeC E A rec f) (hno : E.p.noOr = true) (htopo : E.p.topo)
+    (hnc : E.fixF2 = false ∨ NamedVarsUnchecked E.p) :
     ∀ np n c, np ≤ f → SatN E A np n → SLe c A →
       ∃ c', nodeStep E (matchValue E rec) np n [c] = (true, [c']) ∧ SLe c' A ∧
         (c.nb.lookup np = none → ∀ P N, E.p.nodes[np]? = some P → E.g.nodes[n]? = some N →
@@ -304,11 +336,12 @@ theorem nodeStep_complete (E : Env) (A : Assign) (rec : NPId → NodeId → Stac
         rw [h2]
         exact hnone i h1
       have hpairs_some : ∀ v vp, (v, some vp) ∈ zipPad N.inputs P.inputs →
-          vp.noOr = true ∧ SatV E A vp v ∧ ∀ q idx, vp = .out q idx → q < f := by
+          vp.noOr = true ∧ SatV E A vp v ∧ (∀ q idx, vp = .out q idx → q < f) ∧
+            (E.fixF2 = false ∨ NamedUnchecked E.p vp) := by
         intro v vp hm
         obtain ⟨i, h1, h2⟩ := zipPad_mem _ _ _ _ hm
         have hin : some vp ∈ P.inputs := List.mem_of_getElem? h1
-        refine ⟨noOr_input hno hP hin, ?_, fun q idx he => ?_⟩
+        refine ⟨noOr_input hno hP hin, ?_, fun q idx he => ?_, hnc.imp id (fun h => h P (List.mem_of_getElem? hP) vp hin)⟩
         · rw [h2]; exact hsome i vp h1
         · subst he
           exact Nat.lt_of_lt_of_le (htopo np P hP q idx hin) hnf
@@ -331,14 +364,15 @@ theorem nodeStep_complete (E : Env) (A : Assign) (rec : NPId → NodeId → Stac
       subst this
       exact b5 rfl i (Nat.zero_le _) (by omega)
 
-theorem matchNode_complete (E : Env) (A : Assign) (hno : E.p.noOr = true) (htopo : E.p.topo) :
+theorem matchNode_complete (E : Env) (A : Assign) (hno : E.p.noOr = true) (htopo : E.p.topo)
+    (hnc : E.fixF2 = false ∨ NamedVarsUnchecked E.p) :
     ∀ f, NodeC E A (matchNode E f) f
   | 0 => fun _ _ _ h => absurd h (Nat.not_lt_zero _)
   | f + 1 => by
     intro np n c hlt hs h
-    have ih := matchNode_complete E A hno htopo f
+    have ih := matchNode_complete E A hno htopo hnc f
     unfold matchNode
-    obtain ⟨c', e, s, _⟩ := nodeStep_complete E A (matchNode E f) f ih hno htopo np n c (by omega) hs h
+    obtain ⟨c', e, s, _⟩ := nodeStep_complete E A (matchNode E f) f ih hno htopo hnc np n c (by omega) hs h
     exact ⟨c', e, s⟩
 
 /-! ## Top level: patterns with one output node whose outputs are outputs of that node -/
@@ -369,7 +403,8 @@ def OutputsOfRoot (p : GPat) (np0 : NPId) : Prop :=
 
 /-- the run of `_match_node` on the root that completeness guarantees -/
 theorem root_run_complete (E : Env) (A : Assign) (root : NodeId) (np0 : NPId)
-    (hno : E.p.noOr = true) (htopo : E.p.topo) (hsingle : E.p.outputNodes = [np0])
+    (hno : E.p.noOr = true) (htopo : E.p.topo) (hnc : E.fixF2 = false ∨ NamedVarsUnchecked E.p)
+    (hsingle : E.p.outputNodes = [np0])
     (hroot : OutputsOfRoot E.p np0) (hinst : Instance E root A) :
     ∃ c outs, matchNode E E.p.fuel np0 root [{}] = (true, [c]) ∧ SLe c A ∧
       outputValues E.p c = some outs := by
@@ -389,7 +424,7 @@ theorem root_run_complete (E : Env) (A : Assign) (root : NodeId) (np0 : NPId)
   rw [hfuel]
   unfold matchNode
   obtain ⟨c, e, s, hb⟩ := nodeStep_complete E A (matchNode E E.p.nodes.length) E.p.nodes.length
-    (matchNode_complete E A hno htopo _) hno htopo np0 root {} (Nat.le_of_lt hlt) hs s0
+    (matchNode_complete E A hno htopo hnc _) hno htopo hnc np0 root {} (Nat.le_of_lt hlt) hs s0
   have hbound := hb (by simp)
   have : ∀ vp ∈ E.p.outputs, ∃ y, (assignOf c).outputOf E.p vp = some y := by
     intro vp hvp
@@ -427,7 +462,8 @@ theorem removable_validToReplace (g : Graph) (matched : List NodeId) (outs : Lis
 /-- `SimplePatternMatcher.match` on an instance: without the removability test it succeeds; with
 it, it succeeds exactly when the nodes/outputs it found pass `_valid_to_replace`. -/
 theorem matcher_complete_single (E : Env) (A : Assign) (root : NodeId) (np0 : NPId)
-    (hno : E.p.noOr = true) (htopo : E.p.topo) (hsingle : E.p.outputNodes = [np0])
+    (hno : E.p.noOr = true) (htopo : E.p.topo) (hnc : E.fixF2 = false ∨ NamedVarsUnchecked E.p)
+    (hsingle : E.p.outputNodes = [np0])
     (hroot : OutputsOfRoot E.p np0) (hinst : Instance E root A) :
     (matcherMatch E root false).ok = true ∧
       (∀ k x, (k, x) ∈ (matcherMatch E root false).nb → A.node k = some x) ∧
@@ -436,7 +472,7 @@ theorem matcher_complete_single (E : Env) (A : Assign) (root : NodeId) (np0 : NP
       ((matcherMatch E root true).ok =
         validToReplace E.g (matcherMatch E root false).nodes (matcherMatch E root false).outputs) ∧
       ((matcherMatch E root true).ok = true → matcherMatch E root true = matcherMatch E root false) := by
-  obtain ⟨c, outs, e, s, ho⟩ := root_run_complete E A root np0 hno htopo hsingle hroot hinst
+  obtain ⟨c, outs, e, s, ho⟩ := root_run_complete E A root np0 hno htopo hnc hsingle hroot hinst
   have hf : matcherMatch E root false = Result.ofPartial c outs := by
     unfold matcherMatch
     simp only [hsingle]
@@ -495,12 +531,13 @@ theorem patternMatch_none_of_not_ok (E : Env) (root : NodeId) (rm : Bool)
   simp [hok]
 
 theorem patternMatch_complete_single (E : Env) (A : Assign) (root : NodeId) (np0 : NPId)
-    (hno : E.p.noOr = true) (htopo : E.p.topo) (hsingle : E.p.outputNodes = [np0])
+    (hno : E.p.noOr = true) (htopo : E.p.topo) (hnc : E.fixF2 = false ∨ NamedVarsUnchecked E.p)
+    (hsingle : E.p.outputNodes = [np0])
     (hroot : OutputsOfRoot E.p np0) (hinst : Instance E root A) (hchk : ChecksPass E.p A) :
     ∃ r, patternMatch E root false = some r ∧
       ((patternMatch E root true).isSome = true ↔ Removable E.g r.nodes r.outputs) := by
   obtain ⟨hok, hn, hv, _, htrue, hsame⟩ :=
-    matcher_complete_single E A root np0 hno htopo hsingle hroot hinst
+    matcher_complete_single E A root np0 hno htopo hnc hsingle hroot hinst
   obtain ⟨r, hr, hrn, hro⟩ := patternMatch_of_ok E A root false hok hn hv hchk hinst.cond
   refine ⟨r, hr, ?_⟩
   rw [hrn, hro]
